@@ -12,7 +12,7 @@
 use crate::c17::{check_invariants, remove_allows, Elem};
 use crate::core::*;
 use crate::driver::{panic_site, scratch_dir};
-use crate::http::{build_app, make_request, poll_call, AppService, BodyState, BoxedCall, PollResult, Resp};
+use crate::http::{build_app, make_request, percent_encode, poll_call, AppService, BodyState, BoxedCall, PollResult, Resp};
 use crate::jsonval::{describe, parse_strict, Val, J};
 use crate::models::*;
 use crate::rng::{derive, Hasher, Rng};
@@ -215,7 +215,7 @@ fn build_request(s: &Setup, r: &Value) -> Built {
       let m = pstr(r, "m");
       Built {
         method: "POST",
-        path: format!("/evaluate/{}/d", model_name(m)),
+        path: format!("/evaluate/{}/d", percent_encode(&model_name(m))),
         content_type: None,
         body: b"{}".to_vec(),
         op: Op::EvalD(model_name(m)),
@@ -226,7 +226,7 @@ fn build_request(s: &Setup, r: &Value) -> Built {
       let m = pstr(r, "m");
       Built {
         method: "POST",
-        path: format!("/evaluate/{}/tod", model_name(m)),
+        path: format!("/evaluate/{}/tod", percent_encode(&model_name(m))),
         content_type: None,
         body: b"{}".to_vec(),
         op: Op::Tod(model_name(m)),
@@ -298,7 +298,7 @@ fn build_request(s: &Setup, r: &Value) -> Built {
         let ctx = format!("{{{}}}", inputs.iter().map(|(k, v)| format!("{}: {}", k, v.to_feel())).collect::<Vec<_>>().join(", "));
         Built {
           method: "POST",
-          path: format!("/evaluate/{}/{}", model_name(m), decision),
+          path: format!("/evaluate/{}/{}", percent_encode(&model_name(m)), decision),
           content_type: None,
           body: ctx.into_bytes(),
           op: Op::Echo(model_name(m), expected.clone(), false),
@@ -338,25 +338,25 @@ fn build_request(s: &Setup, r: &Value) -> Built {
         "eval_unknown_model" => raw("POST", "/evaluate/no-such-model/d", None, b"{}".to_vec(), true),
         "eval_unknown_invocable" => Built {
           method: "POST",
-          path: format!("/evaluate/{}/no-such-invocable", model_name(m)),
+          path: format!("/evaluate/{}/no-such-invocable", percent_encode(&model_name(m))),
           content_type: None,
           body: b"{}".to_vec(),
           op: Op::EvalAny(model_name(m)),
           label: label.clone(),
         },
-        "eval_broken_context" => raw("POST", &format!("/evaluate/{}/d", model_name(m)), None, b"{s: ".to_vec(), true),
+        "eval_broken_context" => raw("POST", &format!("/evaluate/{}/d", percent_encode(&model_name(m))), None, b"{s: ".to_vec(), true),
         "eval_odd_builtin_arguments" => Built {
           method: "POST",
-          path: format!("/evaluate/{}/echo_s", model_name(m)),
+          path: format!("/evaluate/{}/echo_s", percent_encode(&model_name(m))),
           content_type: None,
           body: ODD_CONTEXTS[(pu64(r, "n") as usize) % ODD_CONTEXTS.len()].as_bytes().to_vec(),
           op: Op::EvalAny(model_name(m)),
           label: label.clone(),
         },
-        "eval_nonutf8_body" => raw("POST", &format!("/evaluate/{}/d", model_name(m)), None, vec![b'{', 0xff, 0xfe, b'}'], true),
+        "eval_nonutf8_body" => raw("POST", &format!("/evaluate/{}/d", percent_encode(&model_name(m))), None, vec![b'{', 0xff, 0xfe, b'}'], true),
         "eval_empty_body" => Built {
           method: "POST",
-          path: format!("/evaluate/{}/d", model_name(m)),
+          path: format!("/evaluate/{}/d", percent_encode(&model_name(m))),
           content_type: None,
           body: vec![],
           op: Op::EvalAny(model_name(m)),
